@@ -37,3 +37,18 @@ PROPS["C01"] = {
 }
 
 KF_PREDICATES = {}
+
+PROPS["C08"] = {
+    "level": "proof", "harness": "C08", "driver": "C08", "exhaustive": True,
+    "rule": ("cases = the full (entry type x packager tag) matrix, 14 types x 6 tags, packaged in all five formats (exhaustive), "
+             "config globs expanding one entry to many files (3 config types x 5 sources x 2 file_info shapes) with ghosts, plus generated configurations; "
+             "distinct = distinct YAML documents; non-trivial = at least two content entries"),
+    "trusted_base": PKG_TB, "assumptions": [],
+}
+PROPS["C09"] = {
+    "level": "proof", "harness": "C09", "driver": "C09", "exhaustive": True,
+    "rule": ("cases = every subset of the script slots of each format (deb 2^7, ipk 2^4, rpm 2^7, apk 2^6, archlinux 2^6) with pairwise distinct random bytes "
+             "(binary, no trailing newline, braces, and with probability 1/12 empty or NUL-containing), other formats' slots populated at random, random umask; plus generated configurations in all formats; "
+             "distinct = distinct YAML documents; non-trivial = at least two content entries or two scripts"),
+    "trusted_base": PKG_TB, "assumptions": [],
+}
